@@ -25,3 +25,9 @@ Print Assumptions C18_new_size_doubles.
 Theorem C18_unexpanded_table_has_room : forall size m, 0 < size -> 0 <= m -> ht_need_expand_c size m = false -> m + 1 < size.
 Proof. exact no_expand_has_room. Qed.
 Print Assumptions C18_unexpanded_table_has_room.
+
+(* the hashes remembered in set cores and sets are not narrower than the results of the hash functions (a narrower
+   member makes the set tables degrade on long inputs) *)
+Theorem C18_remembered_hashes_keep_all_bits : set_hash_members_are_unsigned_int = true.
+Proof. reflexivity. Qed.
+Print Assumptions C18_remembered_hashes_keep_all_bits.
